@@ -101,7 +101,17 @@ RkOk(r) == /\ Len(r.rk) = Len(r.ry) /\ Len(r.rx) = Len(r.ry)
            /\ \A m \in 1..(Len(r.rk) - 1) : r.rk[m] < r.rk[m + 1]
 RetIdx(r) == {r.rk[m] : m \in 1..Len(r.rk)}
 RowOf(r, k) == CHOOSE m \in 1..Len(r.rk) : r.rk[m] = k
-TopAt(r, k) == k \in RetIdx(r) /\ Within(r.ry[RowOf(r, k)], MaxSeq(r.hits[k]), Tol)
+(* hits[k]: ordinates of the well-conditioned edges at abscissa k; steep[k]: ordinate intervals *)
+(* of the (nearly) vertical edges there, on which the crossing is any point within round-off:  *)
+(* the row must not be below the largest well-conditioned hit (nor below every steep edge)     *)
+(* and not above everything                                                                    *)
+Meets(r, k) == r.hits[k] # <<>> \/ r.steep[k] # <<>>
+SteepLo(r, k) == [h \in 1..Len(r.steep[k]) |-> r.steep[k][h][1]]
+SteepHi(r, k) == [h \in 1..Len(r.steep[k]) |-> r.steep[k][h][2]]
+LowestTop(r, k) == IF r.hits[k] # <<>> THEN MaxSeq(r.hits[k]) ELSE MaxSeq(SteepLo(r, k))
+HighestTop(r, k) == MaxSeq(r.hits[k] \o SteepHi(r, k))
+TopAt(r, k) == k \in RetIdx(r) /\ LowestTop(r, k) - Tol <= r.ry[RowOf(r, k)]
+                               /\ r.ry[RowOf(r, k)] <= HighestTop(r, k) + Tol
 (* on the contour: at the ordinate of a spanning edge, or anywhere on a (nearly) vertical  *)
 (* edge at that abscissa (steep[k] lists their ordinate intervals)                          *)
 OnAt(r, m) == \/ \E h \in 1..Len(r.hits[r.rk[m]]) : Within(r.ry[m], r.hits[r.rk[m]][h], Tol)
@@ -116,10 +126,10 @@ DcfClauses(r) ==
   IF r.exc # "" THEN << <<"NoException", FALSE>> >>
   ELSE IF ~(r.shape2 /\ RkOk(r)) THEN << <<"RequestedAbscissa", FALSE>> >>
   ELSE <<
-    <<"Omission", \A k \in 1..NX(r) : r.hits[k] = <<>> => k \notin RetIdx(r)>>,
+    <<"Omission", \A k \in 1..NX(r) : ~Meets(r, k) => k \notin RetIdx(r)>>,
     <<"OnContour", \A m \in 1..Len(r.rk) : OnAt(r, m)>>,
-    <<"TopOrdinate", \A k \in 1..NX(r) : (r.hits[k] # <<>> /\ ~r.atv[k]) => TopAt(r, k)>>,
-    <<"TopAtVertex", \A k \in 1..NX(r) : (r.hits[k] # <<>> /\ r.atv[k]) => TopAt(r, k)>>,
+    <<"TopOrdinate", \A k \in 1..NX(r) : (Meets(r, k) /\ ~r.atv[k]) => TopAt(r, k)>>,
+    <<"TopAtVertex", \A k \in 1..NX(r) : (Meets(r, k) /\ r.atv[k]) => TopAt(r, k)>>,
     <<"DefaultSpan", r.steps # "list" => SpanOk(r)>>,
     <<"SwapIsExchange", r.swap => SameObserved(r.rx, r.ry, r.rx2, r.ry2)>>
   >>
